@@ -4,6 +4,7 @@ import Darling.Driver.FM
 import Darling.Driver.C18
 import Darling.Driver.C19
 import Darling.Driver.Recv
+import Darling.Driver.C15a
 import Darling.Generated.Facts
 /-
   `darling_model`: reads `<prop> <case-id> <sexp>` lines on stdin, answers `<case-id> <answer>`.
@@ -28,6 +29,7 @@ def answer (p : Params) (prop : String) (c : Sexp) : String :=
   | "fm" => Driver.FM.answer c
   | "c18" => Driver.C18.answer c
   | "c19" => Driver.C19.answer c
+  | "c15a" => Driver.C15a.answer c
   | "recv" => Driver.Recv.answer p.corpus p.global p.thr c
   | _ => "bad-prop"
 
